@@ -126,6 +126,19 @@ CHECKS["C20"] = dict(
     design="5/C20",
 )
 
+CHECKS["C14"] = dict(
+    text="Proved for EVERY identifier (any characters, any mix of quotes, any length): the XPath expression built by xpath_literal is well formed and "
+    "evaluates to exactly that identifier (literal_total), hence two different identifiers never match each other's predicate (literal_injective). "
+    "Correspondence: utils.xpath_literal vs the Lean function, and lxml's evaluation of the expression vs the Lean evaluator. Oracle: 17 lookup entry points "
+    "(tables, styles, bookmarks, reference marks point/range, frames, draw pages, variables, user fields, notes, annotations, links, manifest paths, "
+    "user-defined metadata), two close identifiers each, in memory and after save + reload.",
+    note="The XPath evaluation of Literal / concat(...) is libxml2's: modelled, validated against lxml on every identifier of the run. get_section takes no "
+    "name (not covered). Lookups are made under the identifier the object reports after its setter ran (table names are stripped). Known finding C14-F3 "
+    "(names 'true'/'false' read back as booleans) is reported at every run.",
+    technique="Lean 4 theorem (parser/printer round trip for every string) + differential correspondence with lxml + entry-point oracle",
+    design="5/C14",
+)
+
 NOT_YET = {}
 
 
